@@ -87,8 +87,7 @@ def real_ok_role(path):
     head = path.split(".")[0].split("[")[0]
     if head.endswith("@real"):
         return True
-    r = role_of(path)
-    return r.endswith(".weights") or r == "weights"
+    return False
 
 
 class C18(Check):
@@ -107,7 +106,8 @@ class C18(Check):
         "the set of reachable allocation paths depend on the seed)",
         "numeric options are python scalars; masks and user initialisations are given in the dtype of the data",
         "exempt by role: error lists/losses; integer/bool arrays (index/count outputs); python scalars; leverage_score_dist must be float64; "
-        "for complex input, roles that are mathematically real (singular values, norms, eigenvalues, CP weights) may be float64",
+        "for complex input, roles that are mathematically real and marked so in the catalogue (singular values, norms, eigenvalues) may be float64; "
+        "CP weights are NOT exempt: every weights array the unchanged library returns for complex data is complex",
         "numpy scalars (0-d results of reductions) are compared like arrays but reported under the separate aspect 'scalar-dtype'",
         "library exceptions are counted (guarded_out:<entry>:<exception>) and are not violations of this property",
     ]
